@@ -124,6 +124,8 @@ var checks = map[string]*check{
 			{Name: "recycled-transport", Kind: "explore", Scen: "grpcmux_seq", Inst: inst("recycled", "recycled"), Depths: depths([]int{0}, []int{0, 1}), Budget: budget(2*time.Minute, 10*time.Minute)},
 			// an accepting side that begins to serve 2.5 s / 7 s after Accept (slow service set-up before Serve)
 			// the dialler passes connect parameters of its own (2 s timeout and back-off), the acceptor arrives during the back-off
+			// the main server recycles its connections (MaxConnectionAge set by the plugin author): the control connection is re-dialled by gRPC itself
+			{Name: "recycled-main", Kind: "explore", Scen: "grpcmux_seq", Inst: inst("recycled-main", "recycled-main"), Depths: depths([]int{0, 1}, []int{0, 1, 2}), Budget: budget(2*time.Minute, 10*time.Minute)},
 			{Name: "short-connect", Kind: "explore", Scen: "grpcmux_seq", Inst: inst("short-connect", "short-connect"), Depths: depths([]int{0, 1}, []int{0, 1, 2}), Budget: budget(2*time.Minute, 10*time.Minute)},
 			{Name: "slow-factory", Kind: "explore", Scen: "grpcmux_seq", Inst: inst("slow-factory", "slow-factory"), Depths: depths([]int{1}, []int{1, 2}), Budget: budget(2*time.Minute, 10*time.Minute)},
 			// caller-chosen ids at the edges of uint32 (0, 1, 2^31, 2^32-1)
